@@ -60,6 +60,8 @@ def skeleton(st, fn=None):
         st = st.test                       # compound statements: header only
     elif isinstance(st, ast.For):
         st = st.iter
+    elif isinstance(st, ast.With):
+        st = [i.context_expr for i in st.items]
 
     def dump(n):
         if isinstance(n, ast.Name):
